@@ -80,6 +80,9 @@ _ALL_MANIFEST = MANIFEST
 MANIFEST = {p: d for p, d in _ALL_MANIFEST.items() if THEOREMS.get(p)}
 
 VARIANTS = {0: "BoundedBlocking", 1: "BoundedDropping"}
+# the unbounded builds (512-byte initial node, 4 KiB maximum: growth, switches, shrink requests, over-max records) are run
+# with the property oracles only — the Lean backend model carries the bounded queue (the unbounded one is C02's subject)
+ORACLE_ONLY = {2: "UnboundedBlocking", 3: "UnboundedDropping"}
 
 
 def params_line(ex):
@@ -126,7 +129,7 @@ def collect(ck, tier, ex):
     """run every script through harness + driver + oracles; cached by content hash (same tree + seed ⇒ same result)"""
     res = {"cases": 0, "lines": 0, "nontrivial": 0, "mismatches": [], "oracle": [], "aborts": [], "samples": [], "stats": {}}
     bins = {}
-    for v in VARIANTS:
+    for v in list(VARIANTS) + list(ORACLE_ONLY):
         ok, hbin, log = vlib.build_harness("h2_v%d" % v, ["h2_backend.cpp"], extra_flags=["-fno-access-control", "-DH2_VARIANT=%d" % v])
         if not ok:
             res["build_error"] = log
@@ -142,10 +145,10 @@ def collect(ck, tier, ex):
     workdir = os.path.join(vlib.CACHE, "h2work_%d" % os.getpid())
     os.makedirs(workdir, exist_ok=True)
     jobs = []
-    for v in VARIANTS:
+    for v in list(VARIANTS) + list(ORACLE_ONLY):
         for name, lines in bg.directed_scripts(v):
             jobs.append((v, "v%d_%s" % (v, name), lines))
-        for k in range(n_random):
+        for k in range(n_random if v in VARIANTS else n_random // 2):
             g = bg.Gen(ck.seed * 100003 + v * 50021 + k, v)
             jobs.append((v, "v%d_r%d_%s" % (v, k, g.focus), g.script(nops)))
     # corpus: file name ends with .v<variant>.txt
@@ -170,6 +173,9 @@ def collect(ck, tier, ex):
         res["cases"] += 1
         for (p, msg) in bg.oracles(out.split("\n")):
             res["oracle"].append({"prop": p, "msg": msg, "case": name})
+        if name.startswith(("v2_", "v3_")):
+            res["oracle_only_cases"] = res.get("oracle_only_cases", 0) + 1
+            continue
         blob.append("case %s\n%s\n%s" % (name, pline, out))
     rc, dout = vlib.driver(["backend", "trace"], stdin_data="\n".join(blob).encode(), timeout=1200)
     for ln in dout.split("\n"):
@@ -265,6 +271,8 @@ def run(prop, tier):
         "mismatching_lines_this_property": len(mine_mm),
         "oracle_hits_this_property": len(mine_or),
         "variants": VARIANTS,
+        "oracle_only_variants": ORACLE_ONLY,
+        "oracle_only_cases": res.get("oracle_only_cases", 0),
         "extracted": ex.get("backend", {}),
     })
     return ck.finish()
